@@ -55,4 +55,9 @@ theorem exD_free : freeOf (statFree exD) = 3 ∧
 set_option maxRecDepth 1000000 in
 theorem exD_closed : exD.bitmap = none → exD.bitmapBlocks = [] := by decide +kernel
 
+set_option maxRecDepth 1000000 in
+theorem exD_open : exD.bitmap ≠ none := by decide +kernel
+
+theorem exD_small : exD.total < 4096 := by decide +kernel
+
 end A2Verif.Reload.Prodos
